@@ -32,6 +32,9 @@ type NetCase struct {
 	Headers []string `json:"headers"`
 	Body    string   `json:"body"`
 	Handle  bool     `json:"handle,omitempty"` // fetch through a webfinger handle instead of a URL
+	// Via: "" the hostile response is the fetched document itself; "outbox": it answers for the outbox of an
+	// actor that loads fine; "actor": for the actor of an Announce that loads fine; "parent": for a post's parent
+	Via string `json:"via,omitempty"`
 	Widths  []int    `json:"widths"`
 }
 
@@ -45,7 +48,22 @@ func checkNet(c NetCase) vrep.Result {
 	raw += "\r\n" + c.Body
 	classes := []string{}
 	var item any
-	if c.Handle {
+	if c.Via != "" {
+		sim.Set(0, prefix+"/hostile", &vsim.Route{Raw: raw})
+		hostileURL := sim.URL(0, prefix+"/hostile")
+		var doc string
+		switch c.Via {
+		case "outbox":
+			doc = `{"id":"` + sim.URL(0, prefix+"/doc") + `","type":"Person","name":"fine","preferredUsername":"fine","outbox":"` + hostileURL + `"}`
+		case "actor":
+			doc = `{"id":"` + sim.URL(0, prefix+"/doc") + `","type":"Announce","actor":"` + hostileURL + `","object":{"type":"Note","content":"fine"}}`
+		default:
+			doc = `{"id":"` + sim.URL(0, prefix+"/doc") + `","type":"Note","content":"fine","inReplyTo":"` + hostileURL + `","attributedTo":"` + hostileURL + `"}`
+		}
+		sim.Set(0, prefix+"/doc", vsim.JSON(doc))
+		item = pub.New(sim.URL(0, prefix+"/doc"), nil)
+		classes = append(classes, "via:"+c.Via)
+	} else if c.Handle {
 		sim.Set(0, "*", &vsim.Route{Raw: raw})
 		item = pub.FetchUserInput("@u" + strings.TrimPrefix(prefix, "/k") + "@" + sim.Authority(0))
 		classes = append(classes, "via:webfinger")
@@ -75,6 +93,7 @@ func checkNet(c NetCase) vrep.Result {
 func genNet(t *rapid.T) NetCase {
 	h := func(label string) string { return vgen.HostileString(t, label) }
 	c := NetCase{Handle: rapid.IntRange(0, 4).Draw(t, "handle") == 0, Widths: genWidths(t)}
+	c.Via = rapid.SampledFrom([]string{"", "", "outbox", "actor", "parent"}).Draw(t, "via")
 	switch rapid.IntRange(0, 5).Draw(t, "statuskind") {
 	case 0, 1:
 		c.Status = "HTTP/1.1 200 OK"
